@@ -21,7 +21,7 @@
    and the v1 resolver's refinement r7. *)
 From Coq Require Import Permutation Sorted.
 From Verif Require Import Lib.Bytes StateRes.Event StateRes.Kahn StateRes.V2 StateRes.V1 StateRes.Entry
-     StateRes.SortProofs StateRes.KahnProofs StateRes.OrderProofs StateRes.ResultProofs StateRes.CmpProofs StateRes.KahnOrderProofs StateRes.V2Spec StateRes.OrderSetProofs StateRes.SplitProofs StateRes.ChainProofs StateRes.ChainCompleteProofs StateRes.AuthDiffProofs StateRes.V1Proofs StateRes.V1Spec StateRes.V1SpecProofs StateRes.SubgraphProofs StateRes.PowerSetProofs.
+     StateRes.SortProofs StateRes.KahnProofs StateRes.OrderProofs StateRes.ResultProofs StateRes.CmpProofs StateRes.KahnOrderProofs StateRes.V2Spec StateRes.OrderSetProofs StateRes.SplitProofs StateRes.ChainProofs StateRes.ChainCompleteProofs StateRes.AuthDiffProofs StateRes.V1Proofs StateRes.V1Spec StateRes.V1SpecProofs StateRes.SubgraphProofs StateRes.PowerSetProofs StateRes.IterAuthProofs.
 
 Section C10.
   Variable allowed : event -> list event -> bool.
@@ -172,6 +172,24 @@ Theorem power_set_is_spec cm unconflicted full (rank : bytes -> nat) x :
   (In x (control_events cm unconflicted full) <-> spec_power_set cm unconflicted full x).
 Proof. intro H. apply (power_set_spec cm rank H). Qed.
 
+
+(* iterative auth checks: (1) what the auth rules are shown for an event checked against a
+   partial state st is, in the order of the keys the event needs, the partial state's event of
+   the key if there is one, else the event's own last supplied non-rejected auth event of that
+   key (after the F7 repair); (2) the loop applies an event exactly when the rules allow it
+   against those events. needs_ok: the needed keys are distinct and the needed member /
+   third-party-invite state keys are non-empty (true of every event with a non-empty sender). *)
+Theorem iterative_auth_shows_spec_events rejected authmap st e :
+  smap_wf st -> needs_ok e ->
+  smap_values (auth_provider rejected authmap st e) = spec_auth_events_v2 rejected authmap (smap_get st) e.
+Proof. intros W [N1 [N2 N3]]. apply auth_provider_is_spec; assumption. Qed.
+
+Theorem iterative_auth_is_spec allowed rejected authmap l r :
+  smap_wf (r_state r) -> (forall e, In e l -> needs_ok e) ->
+  spec_iterative_auth allowed rejected authmap (r_state r) l
+                      (r_state (auth_and_apply allowed rejected authmap r l)).
+Proof. apply iterative_auth_spec. Qed.
+
 (* v1 (DESIGN.md 6.2 r7): the model of ResolveStateConflicts returns exactly the list the
    per-key specification StateRes/V1Spec.v defines - per conflicted key, in the order create,
    power levels, join rules, third-party invites, members, the candidates oldest first by
@@ -226,6 +244,8 @@ Print Assumptions full_auth_chain_is_spec.
 Print Assumptions auth_difference_is_spec.
 Print Assumptions conflicted_subgraph_is_spec.
 Print Assumptions power_set_is_spec.
+Print Assumptions iterative_auth_shows_spec_events.
+Print Assumptions iterative_auth_is_spec.
 Print Assumptions v1_resolves_per_spec.
 Print Assumptions v1_returns_conflicted_events.
 Print Assumptions result_is_a_state_map.
